@@ -625,6 +625,7 @@ type VerifC05Init struct {
 	Kind string `json:"kind"`
 	ID   string `json:"id"`
 	Val  string `json:"val"`
+	Fmt  string `json:"fmt,omitempty"` // variant of the stored object (request object: request_uri_method post); not modelled
 }
 
 type VerifC05Scn struct {
